@@ -137,7 +137,8 @@ class HistogramBase(abc.ABC):
         keep_missed : If True, keep information about bins that did not hit any bin
 
         """
-        self._binnings = [as_binning(binning) for binning in binnings]
+        # Copies: an adaptive binning grows in place, and must not grow under another histogram
+        self._binnings = [as_binning(binning, copy=True) for binning in binnings]
 
         new_kwargs = self.default_init_values.copy()
         new_kwargs.update(kwargs)
